@@ -10,7 +10,7 @@
    transcriptions of the code.  Theorems only; proofs in Proofs/HeapP.v (axiom-free).
    [abs h k] is the value (a [kripke]) of object k in heap h; [pure_call h c] is the pure model
    applied to the values of the call's arguments. *)
-From PMC Require Import Spec.Lemmas Model.Heap Model.HeapSession Proofs.HeapP Proofs.HeapSessionP.
+From PMC Require Import Spec.Lemmas Model.Heap Model.HeapSession Model.FairCells Proofs.HeapP Proofs.HeapSessionP Proofs.FairCellsP.
 
 (* one call: every cell that existed before the call is unchanged (FRAME) and the result is the
    pure function of the argument values (REFINEMENT) *)
@@ -79,6 +79,52 @@ Theorem C07_session_example :
   spec_session Examples.h0 SessionExamples.ss = [Ok [1]; Ok [0; 1]; Ok [0]].
 Proof. exact SessionExamples.relabelled_answers. Qed.
 Print Assumptions C07_session_example.
+
+(* the fairness argument as an OBJECT of the caller (Model/FairCells.v): containers built in
+   the call expression (FNew, possibly at the address of a dead one), ONE container edited in
+   place (FEdit), calls that name the container by its address, caller writes to label sets.
+   Every call answers for the CONTENTS its container has at that moment, and for the
+   labelling the caller has made so far; nothing else of the history is visible. *)
+Theorem C07_fair_container_session : forall h0 fh ss h' rs,
+  (forall q a, In (FCall q a) ss -> valid h0 (query_obj q)) ->
+  run_fsession h0 fh ss = (h', rs) ->
+  rs = spec_fsession h0 fh ss /\
+  (forall l, allocated (fcaller_heap h0 fh ss) l -> hget h' l = hget (fcaller_heap h0 fh ss) l) /\
+  (forall k, valid h0 k -> valid h' k /\ abs h' k = abs (fcaller_heap h0 fh ss) k).
+Proof. exact fsession. Qed.
+Print Assumptions C07_fair_container_session.
+
+(* two sessions whose calls see the same contents - at whatever addresses - run alike *)
+Theorem C07_answers_depend_on_contents : forall ss1 ss2 h fh1 fh2,
+  lower fh1 ss1 = lower fh2 ss2 ->
+  run_fsession h fh1 ss1 = run_fsession h fh2 ss2 /\ spec_fsession h fh1 ss1 = spec_fsession h fh2 ss2.
+Proof. intros. split; [apply run_fsession_contents|apply spec_fsession_contents]; assumption. Qed.
+Print Assumptions C07_answers_depend_on_contents.
+
+(* a library that remembers the constraints per container ADDRESS agrees with the right one
+   exactly as long as no address that a call has used is built at or edited again ... *)
+Theorem C07_address_cache_harmless_without_reuse : forall ss h fh,
+  no_reuse [] ss = true -> run_fsession_idcache h fh [] ss = run_fsession h fh ss.
+Proof.
+  intros ss h fh H. apply (idcache_ok_without_reuse ss [] h fh []); [exact H|].
+  intros a F Hc. discriminate Hc.
+Qed.
+Print Assumptions C07_address_cache_harmless_without_reuse.
+
+(* ... and is wrong as soon as one is: a temporary `[{0}]`, then a temporary `[set()]` at the
+   same address (or the same list edited in place) - the second E G true must be empty *)
+Theorem C07_address_cache_refuted :
+  snd (run_fsession Examples.h0 [] FairCellExamples.temporaries) = [Ok [0; 1]; Ok []] /\
+  snd (run_fsession Examples.h0 [] FairCellExamples.edited) = [Ok [0; 1]; Ok []] /\
+  snd (run_fsession_idcache Examples.h0 [] [] FairCellExamples.temporaries) = [Ok [0; 1]; Ok [0; 1]] /\
+  snd (run_fsession_idcache Examples.h0 [] [] FairCellExamples.edited) = [Ok [0; 1]; Ok [0; 1]] /\
+  ~ (forall h fh ss, snd (run_fsession_idcache h fh [] ss) = spec_fsession h fh ss).
+Proof.
+  destruct FairCellExamples.temporaries_answers as (A & _ & B).
+  destruct FairCellExamples.idcache_answers as (C & D).
+  repeat split; auto. exact FairCellExamples.idcache_not_spec.
+Qed.
+Print Assumptions C07_address_cache_refuted.
 
 (* non-vacuity: WITHOUT the clone (or with a shallow clone that shares the label cells) the
    frame statement is false, and a later call on the same structure returns a wrong answer *)
